@@ -5,11 +5,88 @@ ROOT = os.path.dirname(os.path.dirname(os.path.abspath(__file__)))
 
 # id -> (technique, level text, level note, design ref)
 CHECKS = {
- "C01": ("property-based testing (proptest generators, scripted RNG + virtual clock, step-log work bound) with shrinking",
+ "C01": ("property-based testing (proptest generators, scripted RNG + virtual clock, hook-observed work bound) with shrinking",
          "Generated-input search: validated machine sets x histories with batches, unknown ids, non-monotone virtual clock, scripted and seeded random streams; oracle = no panic/overflow/abort, random-word budget, and hook-observed machine steps <= 4(events+1)(machines+1) per call. A pass means no counterexample among the generated cases.",
          "Trusts the verif hook's step log to count transitions; overflow checks compiled into maybenot by the harness profile; loops that neither draw randomness nor log a step are only caught by the watchdog.",
          "DESIGN.md section 4 C01"),
+ "C02": ("property-based testing with an independent recount monitor (exact integer fraction comparison)",
+         "Generated single-event histories over machine sets with all budget/fraction corners; every returned SendPadding is judged against NormalSent/PaddingSent counts recomputed from the fed events only, fractions compared exactly. No counterexample among generated cases.",
+         "The oracle is independent of the framework's counters; 'limit set' means > 0; batches are covered by C05.",
+         "DESIGN.md section 4 C02"),
+ "C03": ("property-based testing with an independent blocked-time recount over a virtual clock",
+         "Generated single-event histories with arbitrary BlockingBegin/End placement and non-monotone virtual clock; blocked and elapsed time recomputed in integer microseconds from the inputs, shares compared exactly with the f64 limits.",
+         "Virtual clock values < 2^50 so no duration saturates and the framework's single division is the only rounding (it can only err towards denying).",
+         "DESIGN.md section 4 C03"),
+ "C04": ("property-based testing of an output-contract predicate (incl. heavy-tailed/unbounded distributions)",
+         "Generated machine sets x batch histories; per call: distinct existing machine ids, kind/flags defined by some state, timeouts/durations <= 24 h, nothing after END.",
+         "END status read from the hook snapshot; durations are exact virtual-clock microseconds.",
+         "DESIGN.md section 4 C04"),
+ "C05": ("model-based testing: lock-step reference semantics, bounded-exhaustive enumeration of histories and draw outcomes for small machine families + random lock-step + twin/clone runs",
+         "An independent reference interpreter of the documented operational semantics is run in lock-step with the framework (actions and state after every call): exhaustively over all histories up to a depth bound and every outcome of every draw for small machine families, and on random larger machines/histories; twin instances and clones must agree.",
+         "The model's random-draw discipline (one 32-bit word per lookup of a non-empty transition list) is pinned to rand 0.8.8 and self-tested; where documentation is silent the model follows the pinned tree (listed in src/model.rs).",
+         "DESIGN.md section 4 C05"),
+ "C06": ("exhaustive enumeration of the draw's 2^23 outcomes per generated probability vector (property-based generation of vectors)",
+         "For each generated validated probability vector, State::sample_state is evaluated on all 2^23 values of the uniform draw; per-target counts must equal p_i*2^23 exactly for dyadic vectors and within 1+i otherwise; framework-level probes tie the sampled target to the dispatched state/END/SIGNAL.",
+         "The mapping word -> f32 draw of rand 0.8.8 is self-tested at start-up; vectors are sampled, the draw is enumerated completely.",
+         "DESIGN.md section 4 C06"),
+ "C07": ("property-based testing with a limit monitor over the hook's step log",
+         "Generated machines with limited actions x histories (single events and batches, own/foreign/unknown-id completions, self-loops, round trips); a monitor derives the remaining limit of each stay from the definition and the reported completions and judges schedulings, withdrawals, LimitReached and returned actions.",
+         "Trusts the hook's step log and snapshot; budgets are unlimited in this domain so only the per-state limit can withhold an action.",
+         "DESIGN.md section 4 C07"),
+ "C08": ("property-based testing with a u128 counter model driven by the step log",
+         "Generated counter specifications (all 9 kinds, values at 0/1/2^64 corners) x histories; a register model predicts every value and every CounterZero delivery ('exactly when') and checks precedence of the CounterZero action.",
+         "The step log supplies which states were entered in which order; arithmetic, predictions and final values are the model's.",
+         "DESIGN.md section 4 C08"),
+ "C09": ("property-based testing with a signal-delivery monitor over the step log",
+         "Generated signalling machine sets x multi-call batch histories; per call the set of signallers and the deliveries per live machine are read from the log and compared with the statement's rules.",
+         "Trusts the hook's marking of the delivery round; rounds in calls without a signaller are left to C05.",
+         "DESIGN.md section 4 C09"),
+ "C10": ("metamorphic property-based testing (combined run vs solo run on the projected history)",
+         "A deterministic subject machine is run next to 1..4 arbitrary neighbours and alone on the projected history; its per-call actions must be identical.",
+         "Subject has probability-1 transitions and constant distributions; no SIGNAL targets; framework fractions 0.",
+         "DESIGN.md section 4 C10"),
+ "C11": ("property-based testing: round-trip oracle, structure-aware string/zlib/bincode mutation, bombs under a counting allocator",
+         "Valid machines (up to the 1 MiB limit, exact-fit included) must round-trip exactly and behave identically; hostile strings (text, mutated encodings at three layers, mirror-struct payloads, bombs up to GiB, legacy v1 payloads) must give Err or a valid machine, never panic, within a memory bound independent of the decompressed size.",
+         "Memory measured as peak live heap with a counting global allocator in a single-threaded worker; constant K derived from the 1 MiB limit.",
+         "DESIGN.md section 4 C11"),
+ "C12": ("property-based testing with an independent well-formedness predicate and differential comparison of the acceptance paths",
+         "Machines with adversarial numbers/targets/distributions through Machine::new, validate(), from_str(encode(mirror)) and Framework::new: accepted => well-formed, and all paths agree; framework fractions likewise.",
+         "Well-formedness of distribution parameters as the statement words it; sampling accepted distributions 16 times must neither panic nor loop.",
+         "DESIGN.md section 4 C12"),
+ "C13": ("property-based testing with scripted adversarial random prefixes and a random-word budget",
+         "All 11 families at validation corners x prefixes of extreme words followed by a fair stream, through Dist::sample, Counter::sample_value and a one-state framework: returns within the word budget, value real, >= 0 and <= max.",
+         "'Promptly' = <= 100 000 words beyond the prefix; two listed findings of the pinned rand_distr Binomial sampler are demonstrated in child processes and skipped by construction elsewhere.",
+         "DESIGN.md section 4 C13"),
+ "C14": ("property-based testing with an exact trace-reproduction oracle",
+         "Generated traces x delays through sim() and sim_advanced() with every filter combination: client tunnel events at exactly the trace's times, server mirror shifted by the delay, nothing else.",
+         "parse_trace's hidden anchor is derived from the first packet and bracketed by two Instant::now() readings; every other packet must agree to the nanosecond.",
+         "DESIGN.md section 4 C14"),
+ "C15": ("property-based testing with conservation/causality invariants over the output trace",
+         "Generated traces x machine sets on both sides x delays/pps/fractions/seeds: injective matching of receives to sends of the same kind at least one delay earlier, no normal packet created, all delivered when the run completed, time-ordered output.",
+         "Unfiltered output with an iteration bound; matching decided by the sorted greedy criterion (exact).",
+         "DESIGN.md section 4 C15"),
+ "C16": ("property-based testing with a contract monitor (framework replay + fire log) for blocking",
+         "Each side's events are replayed through a framework seeded like the simulator's to recover the actions; blocking expiry and bypass permission are derived per the contract and every BlockingBegin/End and TunnelSent is judged against them.",
+         "Relies on C05 (determinism) for the replay and on the hook's fire log for same-instant ordering; a packet leaving exactly at the expiry instant is not counted as inside the period.",
+         "DESIGN.md section 4 C16"),
+ "C17": ("property-based testing with a contract monitor (framework replay + fire log) for action timers",
+         "Per machine the pending action (kind, due, flags) follows the replayed actions; every logged firing must be the current pending action at its due time, every PaddingSent/BlockingBegin the report of exactly one firing at that time, nothing superseded fires, nothing due is passed.",
+         "As C16.",
+         "DESIGN.md section 4 C17"),
+ "C18": ("property-based testing with a contract monitor (framework replay + fire log) for internal timers",
+         "Per machine the internal timer follows the UpdateTimer/Cancel actions of the replay; TimerBegin must follow an UpdateTimer at that instant (required when it sets/changes the timer), TimerEnd exactly once at the computed expiry, never for cancelled/superseded timers.",
+         "As C16.",
+         "DESIGN.md section 4 C18"),
+ "C19": ("property-based differential/metamorphic testing (twin runs, filtered vs projected unfiltered run)",
+         "Two seeded runs on clones of one queue must be equal; each filtered run must equal the projection of the unfiltered run (same iteration bound) or a prefix of it (length bound); no panic, time-ordered, bounds respected, incl. pps limits up to usize::MAX.",
+         "Twin runs can refute but not prove reproducibility; SimEvent equality is the derived PartialEq.",
+         "DESIGN.md section 4 C19"),
+ "C20": ("differential property-based testing of the extern \"C\" API against the Rust API, canary-guarded buffers, counting allocator",
+         "Deterministic machines x event batches through maybenot_on_events vs Framework::trigger_events, field for field; count <= num_machines, canaries intact; start arguments vs the Rust API's verdict and error codes; null pointers; heap growth across identical start/stop cycles.",
+         "Clock-independent machines only (the C API owns clock and RNG); CR-containing strings only required not to crash.",
+         "DESIGN.md section 4 C20"),
 }
+BUILT = set(open(os.path.join(ROOT,'tools','built.txt')).read().split())
 NOT_YET = {}
 
 def main():
@@ -20,7 +97,7 @@ def main():
     na = []
     for p in props:
         pid = p["id"]
-        if pid in CHECKS:
+        if pid in CHECKS and (BUILT is None or pid in BUILT):
             tech, text, note, ref = CHECKS[pid]
             checks.append({
                 "property_id": pid,
@@ -48,7 +125,7 @@ def main():
         "engines": [{
             "name": "mbn-verif",
             "path": "harness/",
-            "serves_properties": sorted(CHECKS.keys()),
+            "serves_properties": sorted(k for k in CHECKS if BUILT is None or k in BUILT),
             "kind_free_text": "Rust harness: proptest strategies driven by an explicit runner (per-case seeding from VERIF_SEED, 16 worker processes, value-tree shrinking, panic classification, known-findings file, JSON replay files), reference model, history monitors, simulator contract monitor; libFuzzer targets under harness/fuzz",
         }],
         "checks": checks,
